@@ -76,7 +76,7 @@ ASSUMPTIONS = [
     "sequential histories: one operator/host event at a time (requests arriving while ATTEMPT_ONLINE are the exception); "
     "concurrent operator calls are C18's subject",
 ]
-BUDGET_S = {"quick": 100, "thorough": 900}
+BUDGET_S = {"quick": 110, "thorough": 1200}
 
 EO, AO, HO, OL, OR = "EQUIPMENT_OFFLINE", "ATTEMPT_ONLINE", "HOST_OFFLINE", "ONLINE_LOCAL", "ONLINE_REMOTE"
 SVNUM = {EO: 1, AO: 2, HO: 3, OL: 4, OR: 5}
@@ -751,9 +751,12 @@ def enum_cases(cfg, length, prefix_len, moving_len):
 def plan(tier, seed):
     quick = tier == "quick"
     tasks = []
-    for c in range(len(CONFIGS)):
-        tasks.append(("enum", {"cfg": c, "length": 1 if quick else 2, "prefix": 1 if quick else 3, "moving": 4 if quick else 6}))
-        tasks.append(("gen", {"cfg": c, "n": 10 if quick else 180, "max_ops": 20 if quick else 60}))
+    shards = 2 if quick else 4
+    for c in reversed(range(len(CONFIGS))):  # the ONLINE configurations have the most enumerated histories: first
+        for sh in range(shards):
+            tasks.append(("enum", {"cfg": c, "length": 1 if quick else 2, "prefix": 1 if quick else 3, "moving": 4 if quick else 6, "shard": sh, "of": shards}))
+        for sh in range(1 if quick else 2):
+            tasks.append(("gen", {"cfg": c, "n": 10 if quick else 90, "max_ops": 20 if quick else 60, "shard": sh}))
     return tasks
 
 
@@ -761,12 +764,14 @@ def run_task(name, kw, ctx):
     cfg = CONFIGS[kw["cfg"]]
     tolerate = frozenset(ctx.known_keys)
     if name == "enum":
-        for case in enum_cases(cfg, kw["length"], kw["prefix"], kw["moving"]):
+        for j, case in enumerate(enum_cases(cfg, kw["length"], kw["prefix"], kw["moving"])):
+            if j % kw["of"] != kw["shard"]:
+                continue
             if ctx.out_of_time():
                 return
             ctx.report(_record(case, ctx, tolerate))
         return
-    ctx.hyp(case_strategy(cfg, kw["max_ops"]), lambda case: _record(case, ctx, tolerate), kw["n"], seed_offset=kw["cfg"])
+    ctx.hyp(case_strategy(cfg, kw["max_ops"]), lambda case: _record(case, ctx, tolerate), kw["n"], seed_offset=kw["cfg"] * 4 + kw["shard"])
 
 
 def replay(case, ctx):
